@@ -223,6 +223,10 @@ fn classify(case: &J, rec: &Rec, a: &J, b: &J, how: &str) -> J {
             _ => what.contains(&"code"),
         };
         if only_args && args_ok { key = "canon-map-colliding-keys"; }
+        // consequence of the same defect: this execution renders the map differently from the execution that
+        // produced the stored state, so the argument hash check of the executed call fails (20017) in one of them
+        let mismatch = |x: &J| x["code"].as_i64() == Some(20017) && x["msg"].as_str().map(|m| m.contains("call argument_hash")).unwrap_or(false);
+        if mismatch(a) != mismatch(b) { key = "canon-map-colliding-keys"; }
     }
     let dd = if what.contains(&"data") { data_diff_fields(&a["data"], &b["data"]) } else { vec![] };
     json!({"property": "C20", "step": rec.step, "key": key, "how": how, "kind": rec.kind,
@@ -382,7 +386,7 @@ fn main() {
         if n_stream_states >= 2 { bump(ci, "runs with >= 2 stream generations in the trace", 1); }
         if code == 30000 { bump(ci, "runs with unprocessed results (30000)", 1); }
         // Coq cases: the model's order-parameterised pieces against what the executions showed
-        let nexts: Vec<Vec<String>> = obs.iter().map(|o| o["next_raw"].as_array().map(|x| x.iter().filter_map(|s| s.as_str().map(String::from)).collect()).unwrap_or_default()).collect();
+        let nexts: Vec<Vec<String>> = obs.iter().filter(|o| o["canon"]["code"] == a["code"]).map(|o| o["next_raw"].as_array().map(|x| x.iter().filter_map(|s| s.as_str().map(String::from)).collect()).unwrap_or_default()).collect();
         if nnext >= 1 {
             let mut distinct: Vec<Vec<String>> = vec![];
             for n in nexts { if !distinct.contains(&n) { distinct.push(n); } }
